@@ -27,6 +27,7 @@ REGISTRY = {
     "C15": _git("C15"),
     "C10": _mod("p_bs"),
     "C18": _mod("p_stats"),
+    "C12": _mod("p_api"),
     "C16": _mod("p_cloc"),
     "C19": _mod("p_deps"),
     "C13": _mod("p_arch"),
